@@ -19,7 +19,7 @@ variable {f : Forest} {X Y : List HTree} {tc : HTree}
 
 theorem handles_split (h : RootAt f X tc Y) :
     handlesList f.roots = handlesList X ++ (handles tc ++ handlesList Y) := by
-  rw [h.roots, handlesList_append]; simp [handlesList]
+  rw [h.roots, handlesList_append_ff]; simp [handlesList]
 
 theorem nodup' (h : RootAt f X tc Y) : (handlesList X ++ (handles tc ++ handlesList Y)).Nodup := by
   rw [← h.handles_split]; exact h.nodup
@@ -36,7 +36,7 @@ theorem not_mem_Y (h : RootAt f X tc Y) : ∀ x ∈ handles tc, x ∉ handlesLis
 
 theorem not_mem_rest (h : RootAt f X tc Y) : ∀ x ∈ handles tc, x ∉ handlesList (X ++ Y) := by
   intro x hx
-  rw [handlesList_append, List.mem_append, not_or]
+  rw [handlesList_append_ff, List.mem_append, not_or]
   exact ⟨h.not_mem_X x hx, h.not_mem_Y x hx⟩
 
 theorem nodup_tc (h : RootAt f X tc Y) : (handles tc).Nodup :=
@@ -48,7 +48,7 @@ theorem handle_not_mem_kids (h : RootAt f X tc Y) : tc.handle ∉ handlesList tc
   exact this.1
 
 theorem nodup_rest (h : RootAt f X tc Y) : (handlesList (X ++ Y)).Nodup := by
-  rw [handlesList_append]
+  rw [handlesList_append_ff]
   have h1 := List.nodup_append.1 h.nodup'
   have h2 := List.nodup_append.1 h1.2.1
   refine List.nodup_append.2 ⟨h1.1, h2.2.1, ?_⟩
@@ -61,7 +61,7 @@ theorem rest_not_mem_tc (h : RootAt f X tc Y) {p : Nat} (hp : p ∈ handlesList 
 
 theorem get?_self (h : RootAt f X tc Y) : f.get? tc.handle = some tc := by
   unfold Forest.get?
-  rw [h.roots, findList?_append_of_not_mem _ _ _ (h.not_mem_X _ (handle_mem_handles tc))]
+  rw [h.roots, findList?_append_of_not_mem _ _ _ (h.not_mem_X _ (handle_mem_handles_ff tc))]
   exact findList?_cons_self tc Y
 
 theorem get?_rest (h : RootAt f X tc Y) {p : Nat} (hp : p ∈ handlesList (X ++ Y)) :
@@ -96,16 +96,16 @@ theorem ctx?_self (h : RootAt f X tc Y) : f.ctx? tc.handle = none := by
   rcases hr with hr | rfl | hr
   · apply ctxBelow_none_of_not_mem'
     intro hm
-    exact h.not_mem_X _ (handle_mem_handles tc) (mem_handlesList.2 ⟨r, hr, hm⟩)
+    exact h.not_mem_X _ (handle_mem_handles_ff tc) (mem_handlesList_ff.2 ⟨r, hr, hm⟩)
   · exact ctxBelow_none_of_not_mem _ _ h.handle_not_mem_kids
   · apply ctxBelow_none_of_not_mem'
     intro hm
-    exact h.not_mem_Y _ (handle_mem_handles tc) (mem_handlesList.2 ⟨r, hr, hm⟩)
+    exact h.not_mem_Y _ (handle_mem_handles_ff tc) (mem_handlesList_ff.2 ⟨r, hr, hm⟩)
 
 theorem root_handle_ne (h : RootAt f X tc Y) {r : HTree} (hr : r ∈ X ++ Y) : r.handle ≠ tc.handle := by
   intro e
-  apply h.not_mem_rest tc.handle (handle_mem_handles tc)
-  exact mem_handlesList.2 ⟨r, hr, e ▸ handle_mem_handles r⟩
+  apply h.not_mem_rest tc.handle (handle_mem_handles_ff tc)
+  exact mem_handlesList_ff.2 ⟨r, hr, e ▸ handle_mem_handles_ff r⟩
 
 theorem isRoot_self (h : RootAt f X tc Y) : f.isRoot tc.handle = true := by
   unfold Forest.isRoot
@@ -141,7 +141,7 @@ theorem ancestors_rest (h : RootAt f X tc Y) {p : Nat} (hp : p ∈ handlesList (
     intro Z hZ l hl hm
     obtain ⟨r, hr, hrl⟩ := List.exists_of_findSome?_eq_some hl
     have := ancestorsOf_subset p r l hrl _ hm
-    exact h.not_mem_rest _ (handle_mem_handles tc) (mem_handlesList.2 ⟨r, hZ r hr, this⟩)
+    exact h.not_mem_rest _ (handle_mem_handles_ff tc) (mem_handlesList_ff.2 ⟨r, hZ r hr, this⟩)
   cases hx : X.findSome? (ancestorsOf p) with
   | some l =>
     rw [hx] at hmem
